@@ -404,6 +404,17 @@ for _pid in ("C02", "C13", "C09"):
     PROPERTIES[_pid]["rules"] += [("SCOPE", lambda ctx: rule_scope(ctx.lib))]
     PROPERTIES[_pid]["explanation"] += " (SCOPE) Function bodies and where-clauses are name-resolved by the per-function transformer clone on which parameters and where-locals are registered as shadowing identifiers."
 
+from pair import rule_dedup, rule_pair_compiler, rule_pair_typechecker, rule_phase  # noqa: E402
+
+PROPERTIES["C02"]["rules"] += [("PHASE", lambda ctx: rule_phase(ctx.lib))]
+PROPERTIES["C02"]["explanation"] += " (PHASE) interpret_statements receives only the value unwrapped with `?` from TypeChecker::check over the complete transformed input, check() applies check_statement to every statement and propagates its error, and no call through the print function is reachable from Resolver::resolve, Transformer::transform or TypeChecker::check (call graph with fn-pointer targets): a rejected input prints nothing."
+PROPERTIES["C06"]["rules"] += [("PAIR", lambda ctx: rule_pair_typechecker(ctx.lib))]
+PROPERTIES["C06"]["explanation"] += " (PAIR) the type checker's env/namespace save() calls of a function definition are each followed by restore() on every success path."
+PROPERTIES["C09"]["rules"] += [("PAIR", lambda ctx: rule_pair_compiler(ctx.lib))]
+PROPERTIES["C09"]["explanation"] += " (PAIR) the compiler's scope stack (locals.push/pop) and chunk selection (begin_function/end_function) are balanced around every function body."
+PROPERTIES["C17"]["rules"] += [("DEDUP", lambda ctx: rule_dedup(ctx.lib))]
+PROPERTIES["C17"]["explanation"] += " (DEDUP) Resolver::inlining_pass imports a module only under the negative membership test on imported_modules and records it between the successful import() and the recursive call, so re-imports and cycles change nothing."
+
 NOT_APPLICABLE = {
     "C03": "numerical agreement of conversion factors over 500 units is a statement about run-time values; no structural clause is a necessary condition that is not already covered under C04/C11/C12 (static analysis cannot bound the arithmetic)",
     "C14": "a statement about the decimal rendering of every f64 under every format setting; the code delegates to pretty_dtoa/num_format and no structural clause of Number::pretty_print_with_dtoa_config can be decided without evaluating it",
